@@ -4869,3 +4869,52 @@ func ruleCascLoad(prop string) ruleFn {
 		}
 	}
 }
+
+// CASC-NOVAR (C08): an id is data, not a pattern variable.
+func ruleCascNoVar(w *World, r *Report) {
+	r.Rule("CASC-NOVAR", "each State implementation's deleteDependencies finds the dependents of an id by searching for the pattern {deleteWith:[id]}; a string that starts with `?` is a variable in a pattern.  Therefore the search is control-dependent on a test of IsVariable(id) (or the id is quoted): otherwise removing the id `?x` — even if no such fact exists — matches, and removes, every fact that has any deleteWith: `nothing else is deleted` fails for every property, flag and dependent rule of the location", 2)
+	a := newLocAnchors(w)
+	isVar := w.Func("core", "IsVariable")
+	for nt := range a.stateImp {
+		dd := w.TryMethod(typeRel(nt), nt.Obj().Name(), "deleteDependencies")
+		if dd == nil || len(dd.Params) < 3 {
+			continue
+		}
+		key := "fn=" + fname(dd)
+		idp := ssa.Value(dd.Params[2])
+		owner := typeKey(nt)
+		var searches []ssa.Instruction
+		allInstrs(dd, func(in ssa.Instruction) {
+			c := callOf(in)
+			if c == nil {
+				return
+			}
+			if f := c.StaticCallee(); f != nil && f.Signature.Recv() != nil && strings.HasPrefix(strings.ToLower(f.Name()), "search") {
+				if rn := namedOf(f.Signature.Recv().Type()); rn != nil && typeKey(rn) == owner {
+					searches = append(searches, in)
+				}
+			}
+		})
+		if len(searches) == 0 {
+			r.exempt("CASC-NOVAR", key, w.Pos(dd.Pos()), "deleteDependencies does not call a search of its own type: shape not recognised, not decided")
+			continue
+		}
+		guard := func(v ssa.Value) bool {
+			c, ok := v.(*ssa.Call)
+			if !ok || c.Common().StaticCallee() != isVar || len(c.Common().Args) != 1 {
+				return false
+			}
+			return dependsOn(c.Common().Args[0], func(x ssa.Value) bool { return x == idp })
+		}
+		ok := true
+		for _, s := range searches {
+			if !controlDependsOn(dd, s, guard) {
+				ok = false
+				r.violation("CASC-NOVAR", key, w.PosOf(s), "the id goes into the search pattern as it is: an id that starts with `?` is a variable there and matches everybody's deleteWith")
+			}
+		}
+		if ok {
+			r.ok("CASC-NOVAR", key, w.PosOf(searches[0]), "no cascade is searched for an id that would be a variable")
+		}
+	}
+}
